@@ -8,7 +8,7 @@
    call's input history, the tool executions grouped by round (in call order), the messages
    handed out by react.WithMessageFuture (if used), and the final answer or error class
    (1 = step limit, 2 = model failure, 3 = anything else: tools node, concatenation, ...). *)
-From Eino Require Import Base.Util Model.Graph Model.Tools Model.React Model.ReactGraph Model.Host.
+From Eino Require Import Base.Util Model.Graph Model.Tools Model.React Model.ReactGraph Model.ReactHeap Model.Host.
 Local Open Scope nat_scope.
 Local Open Scope string_scope.
 
@@ -17,7 +17,8 @@ Inductive oout : Type := OFinal (m : omsg) | OErr (cls : N).
 Inductive omode : Type := MGenerate | MStream.
 Inductive orun : Type :=
   ORun (md : omode) (callopts : bool) (inputs : list (list omsg)) (rounds : list (list call))
-       (emits : option (list omsg)) (out : oout).
+       (emits : option (list omsg)) (out : oout)
+       (mutated : bool).   (* some history slice handed to the model read differently after the run *)
 Inductive tdef : Type := T (name : string) (k : tkind).
 
 Record ccase : Type := mkCase {
@@ -169,16 +170,59 @@ Definition trace_ok (c : ccase) (callopts : bool) (t : trace) (inputs : list (li
   && match emits with Some es => list_eqb msg_eqb (t_emits t) es | None => true end
   && out_eqb (t_out t) out.
 
+(* ---- the history as a Go slice (Model/ReactHeap.v) --------------------------------------- *)
+(* the pre-handler executions of a run, read off the model's trace (messages numbered in order of
+   appearance): chat on the original messages, then per round tools on the assistant message and -
+   if another model call followed - chat on that round's tool messages *)
+Fixpoint heap_ops_rounds (next : N) (rounds : list (list call)) (chats_left : nat) : list hop :=
+  match rounds with
+  | [] => []
+  | cs :: r =>
+      HTools next ::
+      match chats_left with
+      | O => []
+      | S c' =>
+          HChat (map (fun i => (next + 1 + N.of_nat i)%N) (seq 0 (List.length cs)))
+          :: heap_ops_rounds (next + 1 + N.of_nat (List.length cs))%N r c'
+      end
+  end.
+Definition heap_ops (n_input : nat) (t : trace) : list hop :=
+  match t_inputs t with
+  | [] => []
+  | _ :: more => HChat (map N.of_nat (seq 1 n_input))
+                 :: heap_ops_rounds (N.of_nat n_input + 1)%N (t_rounds t) (List.length more)
+  end.
+
+(* the case's modifier on message numbers (the theorems hold for any function) *)
+Definition heap_modifier (c : ccase) : option (list N -> list N) :=
+  match k_mod c with
+  | 1%N => Some (fun h => match h with [] => [] | _ :: r => 0%N :: r end)
+  | 2%N => Some (fun h => skipn (List.length h - 3) h)
+  | _ => match k_persona c with
+         | Some _ => Some (fun h => 0%N :: h)
+         | None => None
+         end
+  end.
+
+(* the slice model of the run's history: the slices handed to the model have the lengths of the
+   observed model inputs, and they are intact exactly if the implementation's were *)
+Definition heap_ok (c : ccase) (t : trace) (inputs : list (list omsg)) (mutated : bool) : bool :=
+  let st := hrun (fun cap _ _ => 2 * cap) (heap_modifier c) (k_max_step c) (heap_ops (List.length (k_input c)) t) in
+  Bool.eqb (handed_intact st) (negb mutated)
+  && list_eqb Nat.eqb (map (fun p => List.length (snd p)) (h_handed st))
+                      (map (fun i : list omsg => List.length i) inputs).
+
 (* both models — the dedicated superstep loop the theorems unfold, and the engine instance —
    must reproduce what the implementation did *)
 Definition run_ok (c : ccase) (r : orun) : bool :=
   match r with
-  | ORun md callopts inputs rounds emits out =>
+  | ORun md callopts inputs rounds emits out mutated =>
       trace_ok c callopts (case_trace c md callopts) inputs rounds emits out
       && match case_engine_trace c md callopts with
          | Some t => trace_ok c callopts t inputs rounds emits out
          | None => false
          end
+      && heap_ok c (case_trace c md callopts) inputs mutated
   end.
 
 (* the harness classifies "content before the tool call" exactly as the theorems' hypothesis does *)
